@@ -95,7 +95,7 @@ class _KexRSA(Kex):
                         packet: SSHPacket) -> None:
         """Process a KEXRSA pubkey message"""
 
-        if self._conn.is_server():
+        if self._conn.is_server() or self._trans_key_data:
             raise ProtocolError('Unexpected KEXRSA pubkey msg')
 
         self._host_key_data = packet.get_string()
